@@ -20,9 +20,13 @@ PKG = 'c6pk'
 MODNAMES = ['c6ma', 'c6mb', 'c6mc']
 PLACEHOLDER = 'pass'
 # how an attribute is assigned through the first parameter: plain, annotated, for target, with target, comprehension target
-ASSIGN_FORMS = ['plain'] * 9 + ['ann', 'ann', 'for', 'with', 'comp']
+ASSIGN_FORMS = ['plain'] * 9 + ['ann', 'ann', 'for', 'with', 'comp', 'nested', 'nested', 'tuple', 'if']
 ASSIGN_TEXT = {'plain': '%(p)s.%(a)s = %(v)d', 'ann': '%(p)s.%(a)s: int = %(v)d', 'for': 'for %(p)s.%(a)s in [%(v)d]: pass',
-               'with': 'with open(__file__) as %(p)s.%(a)s: pass', 'comp': '[0 for %(p)s.%(a)s in [%(v)d]]'}
+               'with': 'with open(__file__) as %(p)s.%(a)s: pass', 'comp': '[0 for %(p)s.%(a)s in [%(v)d]]',
+               # the assignment is the LAST line of a form (its site): inside a function nested in the method, in a tuple target,
+               # under a condition
+               'nested': 'def _helper_%(a)s_%(v)d():\n    %(p)s.%(a)s = %(v)d#SITE\n_helper_%(a)s_%(v)d()',
+               'tuple': '%(p)s.%(a)s, _t%(v)d = %(v)d, 0', 'if': 'if %(v)d + 1:\n    %(p)s.%(a)s = %(v)d'}
 FORMS = ['class', 'inst', 'func', 'self', 'cls', 'module']
 
 
@@ -241,10 +245,14 @@ def render(prog, rng):
                     lines.append('        ' + PLACEHOLDER)
                     c['slots'].append(('self', len(lines), it['first']))
                     for a, ann in zip(it['assigns'], it['ann']):
-                        lines.append('        ' + ASSIGN_TEXT[ann] % {'p': it['first'], 'a': a, 'v': rng.randrange(100)})
+                        site_line = None
+                        for part in (ASSIGN_TEXT[ann] % {'p': it['first'], 'a': a, 'v': rng.randrange(100)}).split('\n'):
+                            if part.endswith('#SITE'):
+                                part, site_line = part[:-5], len(lines) + 1
+                            lines.append('        ' + part)
                         prog.setdefault('assign_forms', {})
                         prog['assign_forms'][ann] = prog['assign_forms'].get(ann, 0) + 1
-                        c['selfs'].append((a, _site(sites, m['rel'], len(lines))))
+                        c['selfs'].append((a, _site(sites, m['rel'], site_line or len(lines))))
                     if k != 'def' or it['name'] != '__init__':
                         lines.append('        return 0')
         files[m['rel']] = '\n'.join(lines) + '\n'
